@@ -217,9 +217,9 @@ PLANS = {
     ),
     'C15': dict(
         oracle='C15', level='exploration', mode='copy',
-        profiles=[('copy', 6)], curated=[], configs=ALLCFG,
-        cp=dict(max_ops=22, scripts={'p': ['r', 'Q']}, moves=False), cp_mp11=dict(moves=True),
-        examples=(250, 2000), floor=(60, 600),
+        profiles=[('copy', 4), ('copy_hist', 2)], curated=[], configs=ALLCFG,
+        cp=dict(max_ops=26, scripts={'p': ['r', 'Q']}, moves=False), cp_mp11=dict(moves=True),
+        examples=(500, 3000), floor=(60, 600),
         rule='Generated histories with copy-construction (from a const reference), copy-assignment (backmp11 additionally move) at '
              'arbitrary quiescent points - nested non-initial configurations, history memory, pending enqueued and deferred '
              'occurrences - followed by different, interleaved continuations of original and copies (incl. draining pending '
